@@ -245,7 +245,7 @@ func (in *instance) body() {
 		vos.Hook = nil
 		c, err := cache.Open(nd)
 		if err != nil {
-			kit.Harness("open: %v", err)
+			kit.UnderTestFailed("cache.Open of a fresh directory fails: %v", err)
 		}
 		in.tmpl = c
 		fsched.Install()
@@ -273,7 +273,7 @@ func (in *instance) body() {
 	vos.Hook = nil
 	for _, p := range in.sc.Pre {
 		if err := pre.PutBytes(ids[p[0]], contents[p[1]]); err != nil {
-			kit.Harness("pre-store: %v", err)
+			kit.UnderTestFailed("PutBytes into a fresh cache (start state, no other user yet) fails: %v", err)
 		}
 		in.invoked[p[0]][p[1]] = true
 		in.putOK[p[0]] = true
